@@ -287,8 +287,11 @@ def c08_jobs(tier, repo):
 
 
 def c13_jobs(tier, repo):
-    d = 10 if tier == "quick" else 14
-    return [_ej("C13", d, 3, 2, 600, 1), _ej("C13", d, 3, 2, 600, 0), _ej("C13", d, 1, 1, 600, 1)]
+    # the first two configurations reach their fixed point (3320 / 912 states) below depth 64; the third
+    # (refresh = retry = 1: the clock takes many more values) is explored to a depth
+    d = 30 if tier == "quick" else 90
+    return [_ej("C13", 64 if tier == "quick" else 200, 3, 2, 600, 1), _ej("C13", 64 if tier == "quick" else 200, 3, 2, 600, 0),
+            _ej("C13", d, 1, 1, 600, 1)]
 
 
 _ENVX_ASSUME = ["the response menu (see rule) is the fault alphabet; faults outside it are not enumerated",
@@ -389,7 +392,7 @@ C17_BUILD = dict(flavour="asan", name="c17_intervals", harness_srcs=["c17_interv
 def c17_jobs(tier, repo):
     jobs = [Job("c17_intervals", C17_BUILD, ["--mode=eod"], "End of Data boundary triples x modes"),
             Job("c17_intervals", C17_BUILD, ["--mode=init"], "rtr_init / rtr_mgr_init boundary triples")]
-    d = 9 if tier == "quick" else 13
+    d = 64 if tier == "quick" else 200  # the polling conversations close at about a hundred states
     for (rf, rt, ex) in ((3, 2, 600), (1, 1, 600), (700, 1, 600)):
         jobs.append(_ej("C17", d, rf, rt, ex, 1))
     if tier == "thorough":
@@ -855,7 +858,7 @@ def c18_jobs(tier, repo):
         jobs.append(Job("c18_alloc", C18_BUILD, ["--mode=clean", "--depth=%d" % depth, "--shard=%d" % i, "--nshards=%d" % n],
                         "failure-free histories of %d operations, shard %d/%d" % (depth, i, n)))
     # failure-free runs of the socket thread ended by the real rtr_stop at every point where it can be cancelled
-    d = 12 if tier == "quick" else 18
+    d = 24 if tier == "quick" else 70
     jobs += [_ej("C18S", d, 3, 2, 600, 1), _ej("C18S", d, 1, 1, 600, 1), _ej("C18S", d, 3, 2, 600, 0)]
     return jobs
 
